@@ -278,6 +278,8 @@ func decodeErrClass(typ string, err error) string {
 		return "bad-host"
 	case strings.Contains(s, "invalid type"), strings.Contains(s, "unexpected value type"), strings.Contains(s, "invalid ssh config type"):
 		return "invalid-type"
+	case strings.Contains(s, "expected a map, got"):
+		return "not-a-mapping" // mapstructure: a struct / map target fed a scalar or a list (Decode.decode's class)
 	}
 	return "other: " + s
 }
